@@ -175,6 +175,9 @@ func (w *World) Log(e Event) int64 {
 	return w.log(e)
 }
 
+// Now0 is Now with Mu held.
+func (w *World) Now0() int64 { return w.seq }
+
 // Now returns the logical clock.
 func (w *World) Now() int64 {
 	w.Mu.Lock()
